@@ -117,14 +117,20 @@ Lemma LastFrac_exact (fr : F) len c n : round_mul len fr = Some n -> 0 <= n -> Z
   argsort_ok argsort c ->
   exists idx, LastFrac_call round_mul choice argsort fr len (Some c) = HOk idx /\ exact_count len n idx /\ most_recent c idx.
 Proof.
-  intros R Hn Hl A. unfold LastFrac_call. rewrite R. cbv zeta.
-  assert (length (argsort c) = length c) as LO by (destruct A as [P _]; rewrite (Permutation_length P), seq_length; reflexivity).
-  rewrite LO. set (m := Z.min n len).
-  assert (Z.max (Z.of_nat (length c) - n) 0 = Z.of_nat (length c) - m) as E by (unfold m; lia). rewrite E.
-  rewrite py_slice_tail by (rewrite LO; unfold m; lia).
-  destruct (tail_of_argsort c m A ltac:(unfold m; lia)) as [V [L M]].
-  eexists. split; [reflexivity|]. split; [split|exact M].
-  - rewrite <- Hl, Nat2Z.id. exact V.
-  - rewrite L. reflexivity.
+  intros R Hn Hl A. unfold LastFrac_call. rewrite R. destruct (len <=? n) eqn:G.
+  - apply Z.leb_le in G. exists (all_idx len). split; [reflexivity|]. assert (0 <= len) as H0 by lia.
+    destruct (all_idx_valid len H0) as [V L]. split; [split; [exact V|rewrite L; lia]|].
+    intros h k _ Hk Hnk. exfalso. apply Hnk. unfold all_idx. apply in_seq. lia.
+  - apply Z.leb_gt in G. cbv zeta.
+    assert (length (argsort c) = length c) as LO by (destruct A as [P _]; rewrite (Permutation_length P), seq_length; reflexivity).
+    rewrite LO. rewrite Z.max_l by lia. rewrite py_slice_tail by (rewrite LO; lia).
+    destruct (tail_of_argsort c n A ltac:(lia)) as [V [L M]].
+    eexists. split; [reflexivity|]. split; [split|exact M].
+    + rewrite <- Hl, Nat2Z.id. exact V.
+    + rewrite L. lia.
 Qed.
+(* users whose rows are all held out (in particular users without rows) never reach the field lookup *)
+Lemma LastFrac_small_user (fr : F) len col n : round_mul len fr = Some n -> len <= n ->
+  LastFrac_call round_mul choice argsort fr len col = HOk (all_idx len).
+Proof. intros R H. unfold LastFrac_call. rewrite R. assert ((len <=? n) = true) as T by (apply Z.leb_le; exact H). rewrite T. reflexivity. Qed.
 End Bodies.
